@@ -2558,17 +2558,23 @@ def convert_ops_to_lut(op: Operation, arch, nng) -> Operation:
 
     """Convert Exp to 8bit or 16bit LUT to allow for support on NPU."""
     if op.type == Op.Exp:
-        func = math.exp
+        def exp(value):
+            # saturate like the reference's float32 arithmetic instead of raising OverflowError
+            return math.exp(min(value, 88.0))
+        func = exp
         name = "exp"
     elif op.type == Op.Log:
         def log(value):
-            if (value == 0):
+            if (value <= 0):
                 value = sys.float_info.min
             return math.log(value)
         func = log
         name = "log"
     elif op.type == Op.Sqrt:
-        func = math.sqrt
+        def sqrt(value):
+            # the quantised input range may include negative values, the function is not defined there
+            return math.sqrt(max(value, 0.0))
+        func = sqrt
         name = "sqrt"
     elif op.type == Op.Gelu:
         def gelu(x):
